@@ -223,9 +223,14 @@ func localPort(r *http.Request) string {
 	if r == nil {
 		return ""
 	}
-	n := strings.Index(r.Host, ":")
-	if n > 0 && n < len(r.Host)-1 {
-		return r.Host[n+1:]
+	host := r.Host
+	// skip over an IPv6 literal: the port of "[::1]:8080" follows the bracket
+	if n := strings.LastIndex(host, "]"); n >= 0 {
+		host = host[n:]
+	}
+	n := strings.Index(host, ":")
+	if n > 0 && n < len(host)-1 {
+		return host[n+1:]
 	}
 	if r.TLS != nil {
 		return "443"
